@@ -1,3 +1,4 @@
 import ArroyProofs.AuditCmd
 import ArroyProofs.Properties.C18
+import ArroyProofs.Properties.C18Build
 #audit Arroy.C18
